@@ -9,7 +9,8 @@ RULE = ("bulk and one-step programs on the real helpers: all 2^16 byte pairs for
         "and/or/xor/negate/is_true/is_false/into-bool on all 4 input pairs; CtOption; masked swap/set for every (choice, array pair) over N in {1,4,5,10} and 6 limb "
         "patterns; MacResult == for lengths 0..=40 incl. unequal lengths and every single differing position; Tag == for every single bit, every pair of bits and equal byte deltas in every pair of bytes; oracle = python ==, <, <=; "
         "distinct = program text"
-        " Also: a choice of either truth value derived in 17 public ways (negations, comparisons, combinations) through its views, CtOption and the masked swap / set helpers; MacResult lengths 255..65536 and unequal lengths differing by 1, 256, 512, 65536; the corpus again on the checked-arithmetic, +sse4.1 and native builds.")
+        " Also: a choice of either truth value derived in 17 public ways (negations, comparisons, combinations) through its views, CtOption and the masked swap / set helpers; MacResult lengths 255..65536 and unequal lengths differing by 1, 256, 512, 65536; the corpus again on the checked-arithmetic, +sse4.1 and native builds."
+        " Operand placement: byte arrays / slices of every length 1..=40 at every pair of address offsets modulo 8 (+16, 33), equal and differing in the first / middle / last byte.")
 ASSUMPTIONS = ["python comparison operators", "byte arrays are compared as big-endian numbers for ct_lt / ct_ge (the documented reading)",
                "slice helpers assert equal lengths: a panic there is a loud refusal, not a wrong answer"]
 
@@ -57,7 +58,31 @@ def b(x):
 
 
 def shards(tier):
-    return [("shard_tables", None), ("shard_arrays", 0), ("shard_arrays", 1), ("shard_arrays", 2), ("shard_misc", None), ("shard_macres", None)]
+    return [("shard_tables", None), ("shard_arrays", 0), ("shard_arrays", 1), ("shard_arrays", 2), ("shard_misc", None), ("shard_macres", None), ("shard_placement", None)]
+
+
+def shard_placement(_, tier):
+    """where the two operands lie: byte arrays and slices of every length 1..=40 at every pair of address offsets modulo 8 (and 16, 33)
+    from a 64-byte boundary - equal operands, and operands differing in the first, the last and a middle byte (the executor hands the
+    helpers references into the placed buffers, it does not copy them)"""
+    ck = core.Checker(PROPERTY_ID)
+    cases = []
+    offs = list(range(8)) + [16, 33]
+    for n in range(1, 41):
+        base = pat(5, 0, n)
+        variants = [base]
+        for pos in sorted({0, n // 2, n - 1}):
+            m = bytearray(base)
+            m[pos] ^= 0x40
+            variants.append(bytes(m))
+        for oa in offs:
+            for ob in offs:
+                for m in variants:
+                    cases.append((["ct_arr8 @%d:%s @%d:%s" % (oa, H(base), ob, H(m)), "ct_slice8 @%d:%s @%d:%s" % (oa, H(m), ob, H(base))],
+                                  [arr8_exp(base, m), b(base == m) + b(base != m)], None))
+    ck.run(cases)
+    ck.stats.states = len(cases)
+    return ck.stats
 
 
 def shard_tables(_, tier):
